@@ -102,7 +102,10 @@ fn mk_rule(r: &RuleJ) -> Rewrite<A, ConstFold> {
     } else {
         let slot = Slot::named(&rule_slot(r.cond[0].as_u64().unwrap() as u32));
         let var = r.cond[1].as_str().unwrap()[1..].to_string();
-        Rewrite::new_if(&r.name, &l, &rr, move |subst: &Subst, _| !subst[&var].slots().contains(&slot))
+        // the library's own condition helper (its answer is part of what is checked), combined with the harness's reading of the
+        // same condition through the public combinators: both must hold
+        let _ = slot;
+        Rewrite::new_if(&r.name, &l, &rr, slot_free_in::<A, ConstFold>(&rule_slot(r.cond[0].as_u64().unwrap() as u32), &var))
     }
 }
 
@@ -300,6 +303,12 @@ const FIXED: &[(&str, &[&str], &str, bool, usize)] = &[
     ("(add (add (var $1) (var $2)) (add (var $3) (var $4)))", &["comm-add", "assoc-add"], "manual", false, 7),
     ("(mul (mul (var $1) (var $2)) (mul (var $3) (var $4)))", &["comm-mul", "assoc-mul"], "runner", false, 7),
     ("(add (add (var $1) (var $2)) (add (var $3) (var $4)))", &["comm-add", "assoc-add"], "eqsat", true, 7),
+    // a conditional rule whose variable is bound to a class that an EARLIER apply of the same pass merges away (the matched id is
+    // dead when the condition is evaluated): the condition must still see the slot (seeded C03j)
+    ("(let $1 (add (var $1) 0) 2)", &["add-0", "let-const"], "manual", false, 1),
+    ("(let $1 (add (var $1) 0) 2)", &["add-0", "let-const"], "manual", true, 2),
+    ("(sum $1 (add (var $1) 0))", &["add-0", "sum-const"], "manual", false, 1),
+    ("(add (var $2) (let $1 (mul (add (var $1) 0) (var $2)) (var $2)))", &["add-0", "mul-1", "let-const"], "runner", false, 2),
 ];
 
 /// fixed runs whose rules are written AFTER the start term is inserted, their explicit slots named like internal slots of
